@@ -32,8 +32,14 @@ func c05Run(r *core.Run) {
 	raw := w.Quote.Bytes()
 	r.Eventf("world %s", w.Describe())
 
+	// In half of the runs every revocation entry is dated AFTER the verifier's clock (a CRL issued
+	// later than a pinned or lagging clock): a listed serial is listed whatever its date.
+	futureDated := t.Bool()
 	reset := func() {
 		w.PckCrl, w.RootCrl, w.RootInQE = origPck, origRoot, origRootInQE
+		if futureDated {
+			w.PckCrl.RevokedAt, w.RootCrl.RevokedAt = w.Epoch.AddDate(0, 0, 18), w.Epoch.AddDate(0, 0, 19)
+		}
 		w.PckCrl.Revoked = append([]*big.Int(nil), origPck.Revoked...)
 		w.RootCrl.Revoked = append([]*big.Int(nil), origRoot.Revoked...)
 		w.Publish()
@@ -101,8 +107,9 @@ func c05Run(r *core.Run) {
 		add(fmt.Sprintf("near-miss:leaf-%d", k), world.MustAccept, "only a near-miss of the leaf's serial is listed", func() { w.PckCrl.Revoked = append(w.PckCrl.Revoked, near(leaf, k)); w.Publish() })
 		add(fmt.Sprintf("near-miss:intermediate-%d", k), world.MustAccept, "only a near-miss of the intermediate's serial is listed", func() { w.RootCrl.Revoked = append(w.RootCrl.Revoked, near(inter, k)); w.Publish() })
 	}
-	add("other-crl:leaf-in-rootcrl", world.DontCare, "the leaf's serial appears in the Root CA CRL (a different issuer's serial space)", func() { w.RootCrl.Revoked = append(w.RootCrl.Revoked, leaf); w.Publish() })
-	add("other-crl:intermediate-in-pckcrl", world.DontCare, "the intermediate's serial appears in the PCK CRL", func() { w.PckCrl.Revoked = append(w.PckCrl.Revoked, inter); w.Publish() })
+	add("other-crl:leaf-serial-in-rootcrl", world.MustAccept, "a certificate of another issuer happens to have the leaf's serial number and is listed in the Root CA CRL; serial numbers are per issuer, the leaf is not revoked", func() { w.RootCrl.Revoked = append(w.RootCrl.Revoked, leaf); w.Publish() })
+	add("other-crl:intermediate-serial-in-pckcrl", world.MustAccept, "a certificate issued by the intermediate happens to have the intermediate's own serial number and is listed in the PCK CRL; the intermediate is not revoked", func() { w.PckCrl.Revoked = append(w.PckCrl.Revoked, inter); w.Publish() })
+	add("other-crl:signer-serial-in-pckcrl", world.MustAccept, "the TCB signer's serial number appears in the PCK CRL (another issuer's serial space)", func() { w.PckCrl.Revoked = append(w.PckCrl.Revoked, sTcb, sQE); w.Publish() })
 	// --- CRL signers
 	add("signer:pckcrl-by-foreign-key", rej, "the PCK CRL is not signed by the intermediate CA", func() { pckEP().Body = world.MakeCRL(w.PckCrl, w.CA, fk) })
 	add("signer:pckcrl-by-foreign-key,lookalike-issuer-in-header", rej, "the PCK CRL is signed by a foreign key; the look-alike CA certificate in the (unauthenticated) response header does not make it the chain's intermediate CA", func() {
@@ -207,6 +214,21 @@ func c05Run(r *core.Run) {
 			r.Violate("C05:accepted:revocation-without-collateral", "CheckRevocations without GetCollateral accepted an (honest) quote; it must always fail")
 		}
 		r.Probe("revocation_without_collateral")
+		r.EndItem()
+	}
+	// a long-lived options value: after a verification with collateral and revocation, switching
+	// collateral off while revocation stays on must fail again (no leftover CRLs)
+	if r.Item("options:revocation-without-collateral-after-collateral") {
+		long := worldOpts(w, O2)
+		first := verifyRaw(raw, long)
+		long.GetCollateral = false
+		second := verifyRaw(raw, long)
+		r.Eval()
+		r.State("options:revocation-without-collateral-after-collateral")
+		r.Eventf("long-lived options: O2 -> %s, then revocation-only -> %s", errClass(first), errClass(second))
+		if second.Accepted() {
+			r.Violate("C05:accepted:revocation-without-collateral-after-collateral", "an options value that had verified with collateral accepted the next quote with CheckRevocations on and GetCollateral off")
+		}
 		r.EndItem()
 	}
 	// control
